@@ -56,6 +56,9 @@ mutual
     | float (q : Rat) (l : Nat) : RVal [⟨.float, .float q, l⟩] (.mk (.float q) l)
     | qstr (s : String) (l : Nat) : RVal [⟨.string, .str s, l⟩] (.mk (.str s) l)
     | bare (s : String) (l : Nat) : RVal [⟨.id, .str s, l⟩] (.mk (.str s) l)
+    /-- unquoted text that is no identifier: one `PLAIN_STRING` token (`%abc`, `/p/q.txt`, `☃`), or an identifier run followed at once by one (`x.y`, `a-b`, `a/b`) -/
+    | plain (s : String) (l : Nat) : RVal [⟨.plain, .str s, l⟩] (.mk (.str s) l)
+    | idPlain (a b : String) (l l2 : Nat) : RVal [⟨.id, .str a, l⟩, ⟨.plain, .str b, l2⟩] (.mk (.str (a ++ b)) l)
     | nil (l l' : Nat) : RVal [⟨.lbrack, .none, l⟩, ⟨.rbrack, .none, l'⟩] (.mk (.list []) l)
     | list (l l' : Nat) (ts : List Tok) (es : List ENode) : RElems ts es →
         RVal (⟨.lbrack, .none, l⟩ :: ts ++ [⟨.rbrack, .none, l'⟩]) (.mk (.list es) l)
@@ -71,7 +74,7 @@ end
 
 /-- a rendering is never empty and starts with a token that is no lexer error, no colon, no terminator -/
 theorem RVal.head {ts : List Tok} {e : ENode} (h : RVal ts e) :
-    ∃ t r, ts = t :: r ∧ t.isErr = false ∧ (t.kind = .int ∨ t.kind = .float ∨ t.kind = .string ∨ t.kind = .id ∨ t.kind = .lbrack) := by
+    ∃ t r, ts = t :: r ∧ t.isErr = false ∧ (t.kind = .int ∨ t.kind = .float ∨ t.kind = .string ∨ t.kind = .id ∨ t.kind = .lbrack ∨ t.kind = .plain) := by
   cases h <;> exact ⟨_, _, rfl, by simp [Tok.isErr], by simp⟩
 
 theorem atPair_lbrack (l : Nat) (rest : List Tok) : atPair (⟨.lbrack, .none, l⟩ :: rest) = false := by
@@ -111,6 +114,18 @@ theorem atPair_false {ts : List Tok} {e : ENode} (h : RVal ts e) (rest : List To
     unfold atPair
     simp only [List.takeWhile_cons, h3, hps, if_true, Bool.false_eq_true, if_false]
     simp [hcol]
+  | plain s l =>
+    have h6 : isPsStart TokKind.plain = true := rfl
+    simp only [List.cons_append, List.nil_append]
+    unfold atPair
+    simp only [List.takeWhile_cons, h6, hps, if_true, Bool.false_eq_true, if_false]
+    simp [hcol]
+  | idPlain a b l l2 =>
+    have h6 : isPsStart TokKind.plain = true := rfl
+    simp only [List.cons_append, List.nil_append]
+    unfold atPair
+    simp only [List.takeWhile_cons, h3, h6, hps, if_true, Bool.false_eq_true, if_false]
+    simp [hcol]
   | nil l l' =>
     simp only [List.cons_append, List.nil_append]
     unfold atPair
@@ -124,7 +139,7 @@ theorem atPair_false {ts : List Tok} {e : ENode} (h : RVal ts e) (rest : List To
     exact atPair_lbrack _ _
 
 theorem RElems.head {ts : List Tok} {es : List ENode} (h : RElems ts es) :
-    ∃ t r, ts = t :: r ∧ t.isErr = false ∧ (t.kind = .int ∨ t.kind = .float ∨ t.kind = .string ∨ t.kind = .id ∨ t.kind = .lbrack) := by
+    ∃ t r, ts = t :: r ∧ t.isErr = false ∧ (t.kind = .int ∨ t.kind = .float ∨ t.kind = .string ∨ t.kind = .id ∨ t.kind = .lbrack ∨ t.kind = .plain) := by
   cases h with
   | one ts e hv => exact hv.head
   | oneComma ts e lc hv => obtain ⟨t, r, rfl, h1, h2⟩ := hv.head; exact ⟨t, r ++ [_], rfl, h1, h2⟩
@@ -150,6 +165,28 @@ theorem plainString_id (s : String) (l : Nat) {t : Tok} (r : List Tok) (he : t.i
   have h5 : (⟨.id, .str s, l⟩ : Tok).isErr = false := by simp [Tok.isErr]
   rw [plainString.go]
   simp only [h5, h3, tokText, go_stop r _ _ he hps]
+  simp
+
+theorem plainString_plain (s : String) (l : Nat) {t : Tok} (r : List Tok) (he : t.isErr = false) (hps : isPsStart t.kind = false) :
+    plainString (⟨.plain, .str s, l⟩ :: t :: r) = .ok ((s, l), t :: r) := by
+  unfold plainString
+  have h3 : isPsStart TokKind.plain = true := rfl
+  have h5 : (⟨.plain, .str s, l⟩ : Tok).isErr = false := by simp [Tok.isErr]
+  rw [plainString.go]
+  simp only [h5, h3, tokText, go_stop r _ _ he hps]
+  simp
+
+theorem plainString_id_plain (a b : String) (l l2 : Nat) {t : Tok} (r : List Tok) (he : t.isErr = false) (hps : isPsStart t.kind = false) :
+    plainString (⟨.id, .str a, l⟩ :: ⟨.plain, .str b, l2⟩ :: t :: r) = .ok ((a ++ b, l), t :: r) := by
+  unfold plainString
+  have h3 : isPsStart TokKind.id = true := rfl
+  have h4 : isPsStart TokKind.plain = true := rfl
+  have h5 : (⟨.id, .str a, l⟩ : Tok).isErr = false := by simp [Tok.isErr]
+  have h6 : (⟨.plain, .str b, l2⟩ : Tok).isErr = false := by simp [Tok.isErr]
+  rw [plainString.go]
+  simp only [h5, h3, tokText]
+  rw [plainString.go]
+  simp only [h6, h4, tokText, go_stop r _ _ he hps]
   simp
 
 theorem more_stop (f : Nat) (acc : String) {t : Tok} (r : List Tok) (he : t.isErr = false) (hc : (t.kind == .colon) = false) :
@@ -325,6 +362,36 @@ mutual
             rw [more_stop _ _ _ he hcol]
           simp only [List.length_cons] at hperm
           simp [Tok.isErr, isNumberHere, isPsStart, hperm]
+    | _, _, .plain s l, rest, fuel, hr, hf => by
+        obtain ⟨t, r, rfl, ht⟩ := hr
+        obtain ⟨he, hps, hcol, _⟩ := term_facts ht
+        cases fuel with
+        | zero => simp at hf
+        | succ f =>
+          simp only [List.cons_append, List.nil_append]
+          unfold expression
+          have hperm : permissive ((⟨.plain, .str s, l⟩ :: t :: r : List Tok).length + 1) (⟨.plain, .str s, l⟩ :: t :: r) = .ok ((s, l), t :: r) := by
+            unfold permissive
+            rw [plainString_plain s l r he hps]
+            simp only [List.length_cons]
+            rw [more_stop _ _ _ he hcol]
+          simp only [List.length_cons] at hperm
+          simp [Tok.isErr, isNumberHere, isPsStart, hperm]
+    | _, _, .idPlain a b l l2, rest, fuel, hr, hf => by
+        obtain ⟨t, r, rfl, ht⟩ := hr
+        obtain ⟨he, hps, hcol, _⟩ := term_facts ht
+        cases fuel with
+        | zero => simp at hf
+        | succ f =>
+          simp only [List.cons_append, List.nil_append]
+          unfold expression
+          have hperm : permissive ((⟨.id, .str a, l⟩ :: ⟨.plain, .str b, l2⟩ :: t :: r : List Tok).length + 1) (⟨.id, .str a, l⟩ :: ⟨.plain, .str b, l2⟩ :: t :: r) = .ok ((a ++ b, l), t :: r) := by
+            unfold permissive
+            rw [plainString_id_plain a b l l2 r he hps]
+            simp only [List.length_cons]
+            rw [more_stop _ _ _ he hcol]
+          simp only [List.length_cons] at hperm
+          simp [Tok.isErr, isNumberHere, isPsStart, hperm]
     | _, _, .nil l l', rest, fuel, hr, hf => by
         cases fuel with
         | zero => simp at hf
@@ -345,7 +412,7 @@ mutual
             have ih := elements_renders hes (⟨.rbrack, .none, l'⟩ :: rest) f' hclose (by simp at hf; omega)
             obtain ⟨t0, r0, rfl, h0e, h0k⟩ := hes.head
             simp only [List.cons_append, List.nil_append, List.append_assoc] at ih ⊢
-            have : t0.kind ≠ .rbrack := by rcases h0k with h | h | h | h | h <;> simp [h]
+            have : t0.kind ≠ .rbrack := by rcases h0k with h | h | h | h | h | h <;> simp [h]
             rw [expression_lbrack, listBody_nonclose _ _ h0e this, ih]
             simp [Tok.isErr, expect]
 
@@ -403,7 +470,7 @@ mutual
           have ih := expression_renders hv _ f hterm (by simp at hf; omega)
           have ih2 := elements_renders hes rest f hr (by simp at hf; omega)
           obtain ⟨t0, r0, rfl, h0e, h0k⟩ := hes.head
-          have hnc : t0.kind ≠ .rbrack := by rcases h0k with h | h | h | h | h <;> simp [h]
+          have hnc : t0.kind ≠ .rbrack := by rcases h0k with h | h | h | h | h | h <;> simp [h]
           simp only [List.append_assoc, List.cons_append, List.nil_append] at *
           rw [elements]
           simp only [hat, Bool.false_eq_true, if_false, ih]
@@ -580,6 +647,21 @@ theorem spells_ident (c : Char) (w : List Char) (hc : isIdStart c = true) (hw : 
     Spells (c :: w) .id (.str (String.ofList (c :: w))) (StopsAt isIdCont) :=
   fun rest line hs => lexS_ident c w rest line hc hw hs
 
+/-- unquoted text that starts with a character no other token can start with (`%`, `/`, `~`, `*`, a non-ASCII letter ...), holds no delimiter and does
+not end in a blank: one `PLAIN_STRING` token with exactly that text, provided a delimiter (or the end of the text) follows -/
+theorem spells_plain (c : Char) (w : List Char) (hc : PlainStart c) (hw : ∀ x ∈ w, isPlainStop x = false)
+    (hlast : ∀ x, (c :: w).getLast? = some x → x ≠ ' ' ∧ x ≠ '\t') :
+    Spells (c :: w) .plain (.str (String.ofList (c :: w))) (StopsAt (fun d => !isPlainStop d)) :=
+  fun rest line hs => lexS_plain c w rest line hc hw hlast hs
+
+/-- non-vacuity: `%abc` and a path; and how the real token stream of `P = x.y, /d/f.csv)` looks (identifier run + plain string, plain string) -/
+example : Spells "%abc".toList .plain (.str "%abc") (StopsAt (fun d => !isPlainStop d)) :=
+  spells_plain '%' "abc".toList (by unfold PlainStart; decide) (by decide) (by decide)
+example : Spells "/data/in put.csv".toList .plain (.str "/data/in put.csv") (StopsAt (fun d => !isPlainStop d)) :=
+  spells_plain '/' "data/in put.csv".toList (by unfold PlainStart; decide) (by decide) (by decide)
+example : (lexS "P = x.y, /d/f.csv)".toList 1).map (fun t => (t.kind, t.val)) =
+    [(.id, .str "P"), (.equal, .none), (.id, .str "x"), (.plain, .str ".y"), (.comma, .none), (.plain, .str "/d/f.csv"), (.rparen, .none)] := by decide +kernel
+
 theorem spells_int (neg : Bool) (ds : List Char) (hne : ds ≠ []) (hd : ∀ c ∈ ds, isDig c = true) :
     Spells (signChars neg ++ ds) .int (.int (if neg then -(digitsVal ds : Int) else (digitsVal ds : Int)))
       (StopsAt (fun c => isDig c || c == '.')) := by
@@ -726,6 +808,73 @@ theorem spells_raw_string (q : Char) (hq : q = '"' ∨ q = '\'') (cs : List Char
 
 /-- non-vacuity: a single-quoted string holding a raw line break; the word after it is on line 2 -/
 example : (lexS "x = 'a\nb' y".toList 1).map (fun t => (t.kind, t.line)) = [(.id, 1), (.equal, 1), (.string, 1), (.id, 2)] := by decide +kernel
+
+/-! ### quoted strings with escape sequences written by the user -/
+
+/-- the inside of a quoted string as the grammar allows it: characters other than the quote and the backslash, and backslash pairs (the second
+character is anything but a line feed - `\"`, `\\`, `\n`, `\x41`, `é`, `\101` all begin so) -/
+inductive QBody (q : Char) : List Char → Prop
+  | nil : QBody q []
+  | char (c : Char) (cs : List Char) : c ≠ q → c ≠ '\\' → QBody q cs → QBody q (c :: cs)
+  | esc (d : Char) (cs : List Char) : d ≠ '\n' → QBody q cs → QBody q ('\\' :: d :: cs)
+
+theorem scan_qbody (q : Char) (hq : q = '"' ∨ q = '\'') {cs : List Char} (h : QBody q cs) : ∀ (rest acc : List Char),
+    scanStringBody q (cs ++ q :: rest) acc = some (acc.reverse ++ cs, rest) := by
+  have hbq : ('\\' == q) = false := by rcases hq with rfl | rfl <;> decide
+  induction h with
+  | nil => intro rest acc; simp only [List.nil_append, List.append_nil]; unfold scanStringBody; simp
+  | char c cs hcq hb _ ih =>
+    intro rest acc
+    have h1 : (c == q) = false := by simpa using hcq
+    have h2 : (c == '\\') = false := by simpa using hb
+    simp only [List.cons_append]
+    unfold scanStringBody
+    simp only [h1, h2, Bool.false_eq_true, if_false]
+    rw [ih rest (c :: acc)]
+    simp
+  | esc d cs hd _ ih =>
+    intro rest acc
+    have h3 : (d == '\n') = false := by simpa using hd
+    simp only [List.cons_append]
+    unfold scanStringBody
+    simp only [hbq, Bool.false_eq_true, if_false, beq_self_eq_true, if_true, h3]
+    rw [ih rest (d :: '\\' :: acc)]
+    simp
+
+/-- **any quoted string**: text between two equal quotes whose inside is made of ordinary characters and backslash pairs, and which the decoder
+(`stringValue`: the model of `encode("latin-1", "backslashreplace").decode("unicode_escape")`) turns into `v`, is one STRING token with value `v`,
+on the line it starts on; line breaks inside it are counted -/
+theorem quoted_any (q : Char) (hq : q = '"' ∨ q = '\'') (cs rest : List Char) (line : Nat) (hb : QBody q cs) (v : List Char)
+    (hv : stringValue cs = .ok v) :
+    scanOne (q :: (cs ++ q :: rest)) line = .tok ⟨.string, .str (String.ofList v), line⟩ rest (line + countNewlines cs) := by
+  obtain ⟨hid, hF, hI⟩ := scanNum_quote q hq (cs ++ q :: rest)
+  have hqq : (q == '"' || q == '\'') = true := by rcases hq with rfl | rfl <;> decide
+  unfold scanOne
+  simp only [hid, Bool.false_eq_true, if_false, hF, hI, hqq, if_true]
+  rw [scan_qbody q hq hb rest []]
+  simp only [List.reverse_nil, List.nil_append, hv]
+
+theorem spells_quoted_any (q : Char) (hq : q = '"' ∨ q = '\'') (cs : List Char) (hb : QBody q cs) (v : List Char) (hv : stringValue cs = .ok v) :
+    SpellsN (q :: (cs ++ [q])) .string (.str (String.ofList v)) (countNewlines cs) (fun _ => True) := by
+  intro rest line _
+  have e : q :: (cs ++ [q]) ++ rest = q :: (cs ++ q :: rest) := by simp
+  rw [e]
+  have hbl : q ≠ ' ' ∧ q ≠ '\t' := by rcases hq with rfl | rfl <;> decide
+  exact lexS_tok q _ line _ _ _ hbl (quoted_any q hq cs rest line hb v hv)
+
+/-- and a quoted string whose escapes the decoder refuses (`"\x4"`, a lone `\N`) is a syntax error, not a token -/
+theorem quoted_bad_escape (q : Char) (hq : q = '"' ∨ q = '\'') (cs rest : List Char) (line : Nat) (hb : QBody q cs) (hv : stringValue cs = .bad) :
+    scanOne (q :: (cs ++ q :: rest)) line = .stop ⟨.errEscape, .none, line⟩ := by
+  obtain ⟨hid, hF, hI⟩ := scanNum_quote q hq (cs ++ q :: rest)
+  have hqq : (q == '"' || q == '\'') = true := by rcases hq with rfl | rfl <;> decide
+  unfold scanOne
+  simp only [hid, Bool.false_eq_true, if_false, hF, hI, hqq, if_true]
+  rw [scan_qbody q hq hb rest []]
+  simp only [List.reverse_nil, List.nil_append, hv]
+
+/-- non-vacuity: escapes of every kind the decoder knows, as a user may write them -/
+example : (lexS "P = \"a\\x41\\u00e9\\101\\n\\\\\\\"z\"".toList 1).map (fun t => (t.kind, t.val)) =
+    [(.id, .str "P"), (.equal, .none), (.string, .str "aAéA\n\\\"z")] := by decide +kernel
 
 /-- a command file as characters: layout, a token spelling, layout, ... - with the tokens it denotes and the lines they start on -/
 inductive Text : List Char → Nat → List Tok → Prop
